@@ -42,24 +42,32 @@ let do_pattern univ = function
   | _ -> failwith "pattern: arity"
 
 (* key <algo> <rootid> <pkg> <name> <cmd> <ins> <files> <outs> <deps> <fp> <multiplatform>
-   -> comps (7 hex fields, comma separated) TAB encode_files (hex) or "none" *)
+      files: hexpath:! (absent) | hexpath:hexcontent:hexdigest   (digest = the implementation's own hash of the content
+      under <algo>; the table content -> digest is the digest function H handed to the model)
+   -> encode_def (hex) TAB encode_files H fs (hex) or "none" *)
 let hexlist s = List.map fld (split_comma s)
 let pairlist s = List.map (fun e -> match String.split_on_char ':' e with
     | [a; b] -> (a, b) | _ -> failwith "pair") (split_comma s)
+let filelist s = List.map (fun e -> match String.split_on_char ':' e with
+    | [p; "!"] -> (unhex p, None)
+    | [p; c; d] -> (unhex p, Some (unhex c, unhex d))
+    | _ -> failwith "file") (split_comma s)
 
 let do_key f =
   match f with
   | [_algo; _root; pkg; name; cmd; ins; files; outs; deps; fp; multi] ->
-    let fsl = List.map (fun (p, c) -> (unhex p, if c = "!" then None else Some (fld c))) (pairlist files) in
-    let fs (p : ascii list) = try List.assoc (of_str p) fsl with Not_found -> None in
+    let fsl = filelist files in
+    let fs (p : ascii list) = match (try List.assoc (of_str p) fsl with Not_found -> None) with
+      | None -> None | Some (c, _) -> Some (to_str c) in
+    let table = List.concat (List.map (fun (_, e) -> match e with None -> [] | Some cd -> [cd]) fsl) in
+    let h (c : ascii list) = try to_str (List.assoc (of_str c) table) with Not_found -> to_str "?" in
     let outs' = List.map (fun (t, i) -> to_str (unhex t ^ "::" ^ unhex i)) (pairlist outs) in
     let fp' = List.map (fun (k, v) -> (fld k, fld v)) (pairlist fp) in
     let st = { ts_label = { lpkg = fld pkg; lname = fld name }; ts_cmd = fld cmd; ts_ins = hexlist ins;
                ts_outs = outs'; ts_deps = hexlist deps; ts_fp = fp';
                ts_plat = if multi = "1" then None else Some (to_str "lx/a64") } in
-    let cs = String.concat "," (List.map out (comps st)) in
-    let files = if no_inputs st then "none" else out (encode_files fs st) in
-    Printf.sprintf "%s\t%s\t%s" cs files (if wf_state st then "wf" else "nwf")
+    let files = if no_inputs st then "none" else out (encode_files h fs st) in
+    Printf.sprintf "%s\t%s" (out (encode_def st)) files
   | _ -> failwith "key: arity"
 
 let () =
